@@ -36,8 +36,16 @@ impl<'a> RegExp<'a> {
         }
         Self::sort(test_cases);
         let grapheme_clusters = Self::grapheme_clusters(test_cases, config);
+        #[cfg(grex_verif)]
+        {
+            use crate::verif_hooks::{record, Event};
+            record(|| Event::TestCases(test_cases.clone()));
+            record(|| Event::Clusters(Self::verif_labels(&grapheme_clusters)));
+        }
         let mut dfa = Dfa::from(&grapheme_clusters, true, config);
         let mut ast = Expression::from(dfa, config);
+        #[cfg(grex_verif)]
+        crate::verif_hooks::record(|| crate::verif_hooks::Event::Expression(ast.to_string()));
 
         if config.is_start_anchor_disabled && config.is_end_anchor_disabled {
             let mut regex = Self::convert_expr_to_regex(&ast, config);
@@ -52,6 +60,10 @@ impl<'a> RegExp<'a> {
             ) {
                 dfa = Dfa::from(&grapheme_clusters, false, config);
                 ast = Expression::from(dfa, config);
+                #[cfg(grex_verif)]
+                crate::verif_hooks::record(|| {
+                    crate::verif_hooks::Event::Expression(ast.to_string())
+                });
                 regex = Self::convert_expr_to_regex(&ast, config);
 
                 if !Self::regex_matches_all_test_cases(&regex, test_cases) {
@@ -155,6 +167,22 @@ impl<'a> RegExp<'a> {
             }
         }
         false
+    }
+}
+
+#[cfg(grex_verif)]
+impl RegExp<'_> {
+    fn verif_labels(clusters: &[GraphemeCluster]) -> Vec<Vec<crate::verif_hooks::Label>> {
+        clusters
+            .iter()
+            .map(|cluster| {
+                cluster
+                    .graphemes()
+                    .iter()
+                    .map(|it| it.verif_label())
+                    .collect()
+            })
+            .collect()
     }
 }
 
